@@ -249,6 +249,11 @@ func (r *RolloutReconciler) handleContinuousRelease(c *RolloutContext) error {
 
 	// do nothing for blue-green release
 	if c.Rollout.Spec.Strategy.IsBlueGreenRelease() {
+		// the "new" revision is the stable one again: the user rolled back before any pod had been updated, so the
+		// workload reports no rollback in progress. Cancel the release instead of asking for the rollback that already happened.
+		if c.Workload.StableRevision != "" && c.Workload.CanaryRevision == c.Workload.StableRevision {
+			return r.handleRollbackDirectly(c.Rollout, c.Workload, c.NewStatus)
+		}
 		cond := util.GetRolloutCondition(*c.NewStatus, v1beta1.RolloutConditionProgressing)
 		cond.Message = "new version releasing detected in the progress of blue-green release, please rollback first"
 		c.NewStatus.Message = cond.Message
